@@ -29,8 +29,11 @@ KEYS = ["id", "format", "format_url", "matrix_type", "generated_by", "date", "ty
 DATE_FORMATS = ["%Y-%m-%d", "%Y-%m-%dT%H:%M", "%Y-%m-%dT%H:%M:%S", "%Y-%m-%dT%H:%M:%S.%f",
                 "%Y-%m-%dT%H:%M:%S%z", "%Y-%m-%dT%H:%M:%S.%f%z"]
 # accepted spellings of the format_version argument
-JSON_FVS = (None, "1.0.0")
-H5_FVS = (None, "2.1", "2.1.0", "2.0", "2.0.0")
+JSON_FVS = (None, "1.0.0", "None")
+H5_FVS = (None, "2.1", "2.1.0", "2.0", "2.0.0", "None")
+# spellings `TableValidator.run` refuses with ValueError before looking at the file
+JSON_BAD_FVS = ("2.1", "1.0", "x")
+H5_BAD_FVS = ("3.0", "1.0.0", "2", "x")
 F_SHARED = "shared_%d.biom" % PID
 # HDF5 mutation classes the validator is known not to look at (known findings F-C15-1..6)
 H5_PASS_CLASSES = ("index-out-of-range", "index-negative", "data-elem-type", "indices-elem-type",
@@ -624,7 +627,9 @@ def write_h5(spec, route, path, compress=True):
 # text that needs escaping / decoding somewhere between the table and the file: quotes, backslashes
 # (incl. sequences that look like JSON escapes), control characters, non-ASCII
 HARD_IDS = ['d"q', 'dir\\name', 'back\\sl', 'ta\tb', 'nl\nx', '"', '\\', 'bell\x07', "q'q", '\u00e91', '\u65e5\u672c',
-            'x/y', 'a b', '\\u0041', 'tr\\', '{"id": 1}', '\u00b5', 'a,b', '[', ' lead']
+            'x/y', 'a b', '\\u0041', 'tr\\', '{"id": 1}', '\u00b5', 'a,b', '[', ' lead',
+            'end\n', 'end ', 'end\t', '\u00e9\u00e8\u00ea\u00eb\u00e0\u00e2\u00e4\u00f9', '\U0001F9EC\U0001F9EC', 'L' * 97,
+            '\u65e5' * 40]
 
 
 def hard_id_spec(rng, mode, classes, max_n=5, max_m=5):
@@ -669,22 +674,52 @@ def parse_date(s):
     return None if s is None else datetime.fromisoformat(s)
 
 
+def shuffled(rng, xs):
+    xs = list(xs)
+    rng.shuffle(xs)
+    return tuple(xs)
+
+
+def check_rejected(ctx, case, path, bad_fvs, tags):
+    """a refused spelling of format_version must raise (ValueError) and leave later calls unaffected"""
+    fv = ctx.rng.choice(bad_fvs)
+    verdict, _ = real_validate(path, fv)
+    ctx.count("rejected-format_version->%s" % verdict)
+    if verdict != "crash":
+        ctx.diverge(dict(case, fv=fv), "a refused format_version was not refused", tuple(tags) + ("format_version=%s" % fv,),
+                    detail={"verdict": verdict})
+
+
 def written_json_case(ctx, spec, route, with_exit=False, tags=(), path=None, creation_date=None,
-                      fvs=JSON_FVS):
+                      fvs=JSON_FVS, t=None, direct_io=False, poke=True, reject=False):
     """write with the real to_json; a writer exception or text that is not JSON is a file the library
-    wrote that cannot be reported valid"""
+    wrote that cannot be reported valid.  `t`: an already built (possibly updated in place) table whose
+    CURRENT content `spec` describes."""
     cd = creation_date.isoformat() if creation_date is not None else None
-    case = {"fmt": "json", "spec": spec, "route": route, "muts": [], "creation_date": cd}
-    ctx.case({"fmt": "json", "spec": core.spec_obs(spec), "route": route, "cd": cd}, nontrivial=True)
+    case = {"fmt": "json", "spec": spec, "route": route, "muts": [], "creation_date": cd, "direct_io": direct_io}
+    ctx.case({"fmt": "json", "spec": core.spec_obs(spec), "route": route, "cd": cd, "dio": direct_io,
+              "tags": list(tags)}, nontrivial=True)
+    if t is None:
+        try:
+            t = core.build(spec, route)
+        except Exception as e:
+            # the table itself cannot be constructed: a generator defect, not a file the library wrote
+            ctx.count("generator:unbuildable-spec:%s" % type(e).__name__)
+            ctx.notes.append("skipped unbuildable spec (generator defect): obs=%r samp=%r" % (spec["obs"], spec["samp"]))
+            return
+    if poke:
+        for what in core.poke_layout(t, ctx.rng):
+            ctx.count("layout-poke:%s" % what.split("!")[0])
+        ctx.count("layout-at-write:%s" % t.matrix_data.getformat())
     try:
-        t = core.build(spec, route)
-    except Exception as e:
-        # the table itself cannot be constructed: a generator defect, not a file the library wrote
-        ctx.count("generator:unbuildable-spec:%s" % type(e).__name__)
-        ctx.notes.append("skipped unbuildable spec (generator defect): obs=%r samp=%r" % (spec["obs"], spec["samp"]))
-        return
-    try:
-        text = t.to_json("c15-harness", creation_date=creation_date)
+        if direct_io:
+            import io
+            sio = io.StringIO()
+            t.to_json("c15-harness", direct_io=sio, creation_date=creation_date)
+            text = sio.getvalue()
+            ctx.count("json:direct_io")
+        else:
+            text = t.to_json("c15-harness", creation_date=creation_date)
     except Exception as e:
         ctx.count("json:written->writer-raised")
         ctx.fail(case, "written_valid", tuple(tags) + ("json", "writer-raised:%s" % type(e).__name__))
@@ -697,24 +732,40 @@ def written_json_case(ctx, spec, route, with_exit=False, tags=(), path=None, cre
         doc = None
     if doc is None:
         tags = tuple(tags) + ("unparsable-text",)
+    if reject:
+        with open(path or os.path.join(TMP, F_CASE), "w") as f:
+            f.write(text)
+        check_rejected(ctx, case, path or os.path.join(TMP, F_CASE), JSON_BAD_FVS, tuple(tags) + ("json",))
     json_case(ctx, case, doc, [], doc=doc, text=text, is_base=True, with_exit=with_exit, written_from=spec,
-              tags=tags, fvs=fvs, path=path)
+              tags=tags, fvs=shuffled(ctx.rng, fvs), path=path)
+
+
+def custom_md_formatter(grp, header, md, compression):
+    """a caller-supplied metadata formatter (format_fs): one text per ID, upper-cased"""
+    import h5py
+    vals = [str(m[header]).upper() if m is not None and m.get(header) is not None else "" for m in md]
+    grp.create_dataset(header, shape=(len(vals),), dtype=h5py.string_dtype(), data=vals)
 
 
 def written_h5_case(ctx, spec, route, compress, base_path, with_exit=False, tags=(), creation_date=None,
-                    fvs=H5_FVS, via="to_hdf5"):
+                    fvs=H5_FVS, via="to_hdf5", t=None, format_fs=None, poke=True, reject=False):
     """write with the real to_hdf5 (or save_table) onto `base_path` and validate that very file"""
     cd = creation_date.isoformat() if creation_date is not None else None
     case = {"fmt": "hdf5", "spec": spec, "route": route, "muts": [], "compress": compress, "creation_date": cd,
-            "via": via}
+            "via": via, "format_fs": sorted(format_fs) if format_fs else None}
     ctx.case({"fmt": "hdf5", "spec": core.spec_obs(spec), "route": route, "c": int(compress), "cd": cd,
-              "via": via}, nontrivial=True)
-    try:
-        t = core.build(spec, route)
-    except Exception as e:
-        ctx.count("generator:unbuildable-spec:%s" % type(e).__name__)
-        ctx.notes.append("skipped unbuildable spec (generator defect): obs=%r samp=%r" % (spec["obs"], spec["samp"]))
-        return
+              "via": via, "tags": list(tags), "ffs": sorted(format_fs) if format_fs else None}, nontrivial=True)
+    if t is None:
+        try:
+            t = core.build(spec, route)
+        except Exception as e:
+            ctx.count("generator:unbuildable-spec:%s" % type(e).__name__)
+            ctx.notes.append("skipped unbuildable spec (generator defect): obs=%r samp=%r" % (spec["obs"], spec["samp"]))
+            return
+    if poke:
+        for what in core.poke_layout(t, ctx.rng):
+            ctx.count("layout-poke:%s" % what.split("!")[0])
+        ctx.count("layout-at-write:%s" % t.matrix_data.getformat())
     try:
         import h5py
         if via == "save_table":
@@ -724,19 +775,126 @@ def written_h5_case(ctx, spec, route, compress, base_path, with_exit=False, tags
             kw = {"generated_by": "c15-harness", "compress": compress}
             if creation_date is not None:
                 kw["creation_date"] = creation_date
+            if format_fs:
+                kw["format_fs"] = {k: custom_md_formatter for k in format_fs}
             save_table(t, base_path, **kw)
         else:
             with h5py.File(base_path, "w") as f:
-                t.to_hdf5(f, "c15-harness", compress=compress, creation_date=creation_date)
+                t.to_hdf5(f, "c15-harness", compress=compress, creation_date=creation_date,
+                          format_fs={k: custom_md_formatter for k in format_fs} if format_fs else None)
+        if format_fs:
+            ctx.count("hdf5:format_fs")
         tree, _ = observe_h5(base_path)
     except Exception as e:
         ctx.count("hdf5:written->writer-raised")
         ctx.fail(case, "written_valid", tuple(tags) + ("hdf5", "writer-raised:%s" % type(e).__name__))
         return
+    if reject:
+        check_rejected(ctx, case, base_path, H5_BAD_FVS, tuple(tags) + ("hdf5",))
     h5_case(ctx, case, base_path, tree, [], len(spec["obs"]), len(spec["samp"]), is_base=True,
-            with_exit=with_exit, written_from=spec, tags=tags, fvs=fvs, in_place=True)
+            with_exit=with_exit, written_from=spec, tags=tags, fvs=shuffled(ctx.rng, fvs), in_place=True)
 
 
+# ----------------------------------------------------------------------------- in-place updates, aliasing
+def near_duplicate_spec(rng, classes):
+    """IDs that look like each other without being equal (extensions, blanks, case variants, doubled):
+    none of them may be reported as a duplicate, and every one must come back on load"""
+    spec = gen_base_spec(rng, classes, max_n=3, max_m=3, min_n=2, min_m=2)
+    for ax, p in (("obs", "Ob"), ("samp", "Sa")):
+        seed_ids = [p, p + "c"]
+        ids = seed_ids + core.tricky_unknown_ids(seed_ids)
+        ids = [i for k, i in enumerate(ids) if i and i not in ids[:k]]
+        rng.shuffle(ids)
+        ids = ids[:rng.randint(4, min(8, len(ids)))]
+        spec[ax] = ids
+    n, m = len(spec["obs"]), len(spec["samp"])
+    spec["rows"] = core.gen_grid(rng, n, m, 0.6, classes)
+    spec["omd"] = None
+    spec["smd"] = None
+    return spec
+
+
+def reversed_samples(spec):
+    """spec of `t.sort_order(reversed(sample ids))`"""
+    out = copy.deepcopy(spec)
+    out["samp"] = list(reversed(spec["samp"]))
+    out["rows"] = [list(reversed(r)) for r in spec["rows"]]
+    if spec.get("smd") is not None:
+        out["smd"] = list(reversed(copy.deepcopy(spec["smd"])))
+    return out
+
+
+INPLACE_OPS = ["update_ids_samp", "update_ids_obs", "transform_samp", "transform_obs", "del_metadata",
+               "transform_current"]
+
+
+def apply_inplace(rng, t, spec, op=None):
+    """one in-place change that keeps the table object (and, where the library can, its matrix / ID
+    arrays / metadata objects); returns (name, spec of the CURRENT content)"""
+    spec = copy.deepcopy(spec)
+    op = op or rng.choice(INPLACE_OPS)
+    if op.startswith("update_ids"):
+        ax, key = ("sample", "samp") if op.endswith("samp") else ("observation", "obs")
+        longest = max(len(i) for i in spec["obs"] + spec["samp"])
+        # new IDs are LONGER than every existing one (fixed-width ID arrays)
+        new = [i + "_renamed_" + "z" * (longest + k) for k, i in enumerate(spec[key])]
+        t.update_ids(dict(zip(spec[key], new)), axis=ax, inplace=True)
+        spec[key] = new
+    elif op.startswith("transform"):
+        if op == "transform_current":
+            # along the axis whose layout is current: the matrix object is kept
+            ax = "observation" if t.matrix_data.getformat() == "csr" else "sample"
+        else:
+            ax = "sample" if op.endswith("samp") else "observation"
+        t.transform(lambda d, i, m: d * 2, axis=ax, inplace=True)
+        spec["rows"] = [[v * 2 for v in r] for r in spec["rows"]]
+    else:
+        t.del_metadata(axis="whole")
+        spec["omd"] = None
+        spec["smd"] = None
+    return op, spec
+
+
+def inplace_and_alias_cases(ctx, rng, spec, shared, k):
+    """themes (ii)+(vii): write, change in place, write again (judged against the CURRENT content); a table
+    derived from the source is changed in place and the SOURCE, written again, must be as before"""
+    src = core.build(spec, rng.choice(core.ROUTES))
+    tg = ("inplace",)
+    written_json_case(ctx, spec, "live", tags=tg + ("first-write",), path=shared, t=src)
+    written_h5_case(ctx, spec, "live", True, shared, tags=tg + ("first-write",), t=src, fvs=(None, "2.1.0"))
+    # a derived table, changed in place, must not disturb the source
+    dspec = reversed_samples(spec)
+    derived = src.sort_order(dspec["samp"])
+    derived.type = spec["type"]
+    op, dspec2 = apply_inplace(rng, derived, dspec)
+    ctx.count("inplace-on-derived:%s" % op)
+    written_json_case(ctx, spec, "live", tags=("alias", "source-after:%s" % op), path=shared, t=src,
+                      direct_io=bool(k % 2), poke=bool(k % 3))
+    written_json_case(ctx, dspec2, "live", tags=("alias", "derived-after:%s" % op), path=shared, t=derived,
+                      poke=False)
+    if k % 2 == 0:
+        written_h5_case(ctx, spec, "live", False, shared, tags=("alias", "source-after:%s" % op), t=src,
+                        fvs=(None, "2.1"))
+        written_h5_case(ctx, dspec2, "live", True, shared, tags=("alias", "derived-after:%s" % op), t=derived,
+                        fvs=(None,))
+    # the source itself changed in place, every kind of change in turn: each export is judged against the
+    # CURRENT content; no accessor call in between, so that the table keeps whatever objects it can keep
+    cur = spec
+    for j, op2 in enumerate(shuffled(rng, INPLACE_OPS)):
+        written_json_case(ctx, cur, "live", tags=tg + ("export-before:%s" % op2,), path=shared, t=src, poke=False,
+                          fvs=(None,))
+        op2, cur = apply_inplace(rng, src, cur, op2)
+        ctx.count("inplace-on-source:%s" % op2)
+        written_json_case(ctx, cur, "live", tags=tg + ("rewrite-after:%s" % op2,), path=shared, t=src, poke=False,
+                          fvs=(None,))
+        if j == 0:
+            written_h5_case(ctx, cur, "live", True, shared, tags=tg + ("rewrite-after:%s" % op2,), t=src,
+                            fvs=(None, "2.1.0"), poke=False)
+    # and the derived table is still what it was
+    written_json_case(ctx, dspec2, "live", tags=("alias", "derived-after-source-changes",), path=shared, t=derived)
+
+
+# ----------------------------------------------------------------------------- specs
 # ----------------------------------------------------------------------------- specs
 def gen_base_spec(rng, classes, max_n=4, max_m=4, min_n=1, min_m=1, density=None):
     spec = core.gen_spec(rng, max_n=max_n, max_m=max_m, min_n=min_n, min_m=min_m, classes=classes,
@@ -845,19 +1003,72 @@ def _run(ctx):
     # ALTERNATELY ONTO THE SAME PATH within this process and each is validated there
     shared = os.path.join(TMP, F_SHARED)
     dates = explicit_dates()
-    n_written = 50 if quick else 1200
+    n_written = 44 if quick else 1200
+    import contextlib
+    from biom import err as biom_err
     for i in range(n_written):
         spec = gen_base_spec(rng, core.VALUE_CLASSES if i % 2 else exact, max_n=6, max_m=6)
         route = rng.choice(core.ROUTES)
         dn, dt = dates[i % len(dates)] if i % 2 == 0 else ("now", None)
         tg = ("creation-date:%s" % dn,)
         ctx.count("written:creation-date:%s" % dn)
-        written_json_case(ctx, spec, route, with_exit=(i < 10), path=shared, creation_date=dt, tags=tg)
+        # a share of the cases runs under a non-default error profile (non-empty tables: nothing may change)
+        prof = [None, None, {"empty": "raise"}, {"all": "warn"}, {"empty": "call"}][i % 5]
+        ctx.count("written:error-profile:%s" % (prof,))
+        import warnings
+        with (biom_err.errstate(**prof) if prof else contextlib.nullcontext()), warnings.catch_warnings():
+            warnings.simplefilter("ignore")
+            written_json_case(ctx, spec, route, with_exit=(i < 10), path=shared, creation_date=dt, tags=tg,
+                              direct_io=(i % 3 == 1), reject=(i % 7 == 0))
+            if i % 2 == 0 or not quick:
+                spec2 = gen_base_spec(rng, core.VALUE_CLASSES, max_n=6, max_m=6)
+                via = "save_table" if i % 4 == 0 else "to_hdf5"
+                ffs = None
+                if i % 6 == 0:
+                    # a caller-supplied formatter early in the run; later default writes must be unaffected
+                    spec2["omd"] = core.gen_md(rng, spec2["obs"], "text")
+                    ffs = ["grp"]
+                written_h5_case(ctx, spec2, rng.choice(core.ROUTES), bool(i % 3), shared, with_exit=(i < 10),
+                                creation_date=dt, tags=tg, via=via, format_fs=ffs, reject=(i % 8 == 0))
+    # IDs that resemble each other (blanks, case, extensions, doubled): no false duplicate, all come back
+    for i in range(6 if quick else 120):
+        spec = near_duplicate_spec(rng, exact)
+        written_json_case(ctx, spec, rng.choice(core.ROUTES), tags=("near-duplicate-ids",), path=shared)
         if i % 2 == 0 or not quick:
-            spec2 = gen_base_spec(rng, core.VALUE_CLASSES, max_n=6, max_m=6)
-            via = "save_table" if i % 4 == 0 else "to_hdf5"
-            written_h5_case(ctx, spec2, rng.choice(core.ROUTES), bool(i % 3), shared, with_exit=(i < 10),
-                            creation_date=dt, tags=tg, via=via)
+            written_h5_case(ctx, near_duplicate_spec(rng, exact), rng.choice(core.ROUTES), True, shared,
+                            tags=("near-duplicate-ids",), fvs=(None, "2.1.0"))
+    # size thresholds: >= 64 IDs on one axis; one metadata text >= 64 KiB; a very long ID
+    for i, axis in enumerate(("sample", "observation") if quick else ("sample", "observation") * 6):
+        spec = core.wide_spec(rng, n_axis=rng.choice([65, 70, 100, 130]), axis=axis, classes=exact, md=bool(i % 2))
+        spec["type"] = rng.choice(VOCAB)
+        written_json_case(ctx, spec, rng.choice(core.ROUTES), tags=("wide:%s" % axis,), path=shared)
+        written_h5_case(ctx, spec, rng.choice(core.ROUTES), bool(i % 2), shared, tags=("wide:%s" % axis,),
+                        fvs=(None, "2.1.0"))
+        ctx.count("wide:%s:%d" % (axis, max(len(spec["obs"]), len(spec["samp"]))))
+        # mutations far from the first positions of a wide document
+        doc = json.loads(written_json(spec, "dense"))
+        n, m = doc["shape"]
+        for mu in ({"m": "dupId", "ax": "rows" if axis == "observation" else "columns", "i": 0, "j": max(n, m) - 1},
+                   {"m": "blankId", "ax": "rows" if axis == "observation" else "columns", "i": max(n, m) - 2},
+                   {"m": "appendCoord", "v": [n, m - 1, 1.0]}, {"m": "appendCoord", "v": [n - 1, m, 1.0]},
+                   {"m": "appendCoord", "v": [n - 1, m - 1, 1.0]}, {"m": "setShape", "r": n, "c": m - 1},
+                   {"m": "dropRecord", "ax": "rows" if axis == "observation" else "columns", "i": max(n, m) - 1}):
+            case = {"fmt": "json", "spec": spec, "route": "dense", "muts": [mu]}
+            ctx.case({"fmt": "json", "base": base_key(spec), "muts": [mu]}, nontrivial=True)
+            json_case(ctx, case, doc, [mu], fvs=(None,))
+    big = gen_base_spec(rng, exact, max_n=3, max_m=3, min_n=2, min_m=2)
+    big["obs"][0] = "O" + "long-id-" * 40
+    big["omd"] = [{"note": ("x" * 1023 + "\n") * 66 if k == 0 else "short"} for k in range(len(big["obs"]))]
+    big["smd"] = None
+    written_json_case(ctx, big, "dense", tags=("big-text",), path=shared, fvs=(None,))
+    written_h5_case(ctx, big, "dense", True, shared, tags=("big-text",), fvs=(None,))
+    # in-place updates between exports, and tables derived from a live source
+    for k in range(6 if quick else 150):
+        spec = gen_base_spec(rng, exact, max_n=4, max_m=4, min_n=2, min_m=2)
+        if k % 2 == 0:
+            spec["omd"] = core.gen_md(rng, spec["obs"], "text")
+            spec["smd"] = core.gen_md(rng, spec["samp"], "num")
+        inplace_and_alias_cases(ctx, rng, spec, shared, k)
     # IDs that need escaping, on each axis independently and on both (same shared path)
     n_hard = 36 if quick else 600
     for i in range(n_hard):
@@ -874,7 +1085,7 @@ def _run(ctx):
 
     # ---- JSON fault enumeration
     n_bases = 5 if quick else 12
-    n_double = 900 if quick else None
+    n_double = 600 if quick else None
     bases = []
     for b in range(n_bases):
         dens = [0.6, 1.0, 0.3, 0.0, 0.8][b % 5]
@@ -887,7 +1098,8 @@ def _run(ctx):
         for mu in singles:
             case = {"fmt": "json", "spec": spec, "route": "dense", "muts": [mu]}
             ctx.case({"fmt": "json", "base": base_key(spec), "muts": [mu]}, nontrivial=True)
-            json_case(ctx, case, doc, [mu], with_exit=(b == 0), fvs=JSON_FVS)
+            some = JSON_FVS if (b == 0 or not quick) else (None, rng.choice(JSON_FVS[1:]))
+            json_case(ctx, case, doc, [mu], with_exit=(b == 0), fvs=some)
     if n_double is not None:
         for _ in range(n_double):
             b = rng.randrange(len(bases))
@@ -921,7 +1133,7 @@ def _run(ctx):
     # ---- HDF5: written files valid; fault enumeration
     base_path = os.path.join(TMP, F_BASE_H5)
     n_hb = 3 if quick else 6
-    n_hdouble = 200 if quick else None
+    n_hdouble = 150 if quick else None
     hbases = []
     for b in range(n_hb):
         while True:
@@ -939,7 +1151,8 @@ def _run(ctx):
         for mu in h5_mutations(tree, n, m):
             case = {"fmt": "hdf5", "spec": spec, "route": "dense", "muts": [mu]}
             ctx.case({"fmt": "hdf5", "base": base_key(spec), "muts": [mu]}, nontrivial=True)
-            h5_case(ctx, case, bp, tree, [mu], n, m, with_exit=(b == 0), fvs=H5_FVS)
+            some = H5_FVS if (b == 0 or not quick) else (None,) + tuple(rng.sample(H5_FVS[1:], 2))
+            h5_case(ctx, case, bp, tree, [mu], n, m, with_exit=(b == 0), fvs=some)
     try:
         if n_hdouble is not None:
             for _ in range(n_hdouble):
@@ -980,13 +1193,17 @@ def replay(ctx, rec):
     case = rec["case"]
     fvs = (case.get("fv"),)
     shared = os.path.join(TMP, F_SHARED)
+    if case.get("route") not in core.ROUTES:
+        # the table had a history (in-place updates / derived tables); its current content is in the spec
+        case = dict(case, route="dense")
     try:
         if case["fmt"] == "json":
             if "doc" in case:
                 json_case(ctx, case, case["doc"], case["muts"], tags=("replay",), fvs=fvs)
             elif not case["muts"]:
                 written_json_case(ctx, case["spec"], case.get("route", "dense"), tags=("replay",), path=shared,
-                                  creation_date=parse_date(case.get("creation_date")), fvs=fvs)
+                                  creation_date=parse_date(case.get("creation_date")), fvs=fvs,
+                                  direct_io=bool(case.get("direct_io")))
             else:
                 doc = json.loads(written_json(case["spec"], case.get("route", "dense")))
                 json_case(ctx, case, doc, case["muts"], tags=("replay",), fvs=fvs)
@@ -996,7 +1213,7 @@ def replay(ctx, rec):
                 written_json_case(ctx, case["spec"], case.get("route", "dense"), tags=("replay",), path=shared)
                 written_h5_case(ctx, case["spec"], case.get("route", "dense"), case.get("compress", True), shared,
                                 tags=("replay",), creation_date=parse_date(case.get("creation_date")), fvs=fvs,
-                                via=case.get("via", "to_hdf5"))
+                                via=case.get("via", "to_hdf5"), format_fs=case.get("format_fs"))
             else:
                 bp = os.path.join(TMP, F_BASE_H5)
                 write_h5(case["spec"], case.get("route", "dense"), bp, compress=case.get("compress", True))
